@@ -55,6 +55,10 @@ fn real_main() -> i32 {
             }
         };
         return match (prop.replay)(&case) {
+            Err(v) if v.message.starts_with("SKIP:") => {
+                println!("replay declined ({}): property={} case={}", v.message, id, path.display());
+                0
+            }
             Ok(()) => {
                 println!("replay passed: property={} case={}", id, path.display());
                 0
@@ -100,6 +104,11 @@ fn real_main() -> i32 {
         st.eval();
         st.class("regression-replay");
         if let Err(v) = (prop.replay)(&case) {
+            if v.message.starts_with("SKIP:") {
+                st.discarded += 1;
+                st.class(&v.message);
+                continue;
+            }
             // a regression of a *known* finding is reported as such
             if !v.signature.is_empty() {
                 if let Some(f) = ctx.known(&v.signature) {
